@@ -253,7 +253,10 @@ def register_dataclass_type_with_jax_tree_util(data_class):
         constructable from keyword arguments corresponding to the members exposed
         in instance.__dict__.
     """
-    flatten = lambda d: tuple(zip(*sorted(d.__dict__.items())))[::-1]
+    field_names = frozenset(f.name for f in dataclasses.fields(data_class))
+    flatten = lambda d: tuple(
+        zip(*sorted((k, v) for k, v in d.__dict__.items() if k in field_names))
+    )[::-1]
     unflatten = lambda keys, values: data_class(**dict(zip(keys, values)))
     try:
         jax.tree_util.register_pytree_node(
